@@ -14,4 +14,4 @@ from checks import gov_common
 
 
 def run(ctx):
-    gov_common.run_streams(ctx, "C34", ["gov-pool"], "Poly.Props.C34.invariants_over_histories / epoch_step")
+    gov_common.run_streams(ctx, "C34", ["gov-pool", "gov-approvals", "gov-votes"], "Poly.Props.C34.invariants_over_histories / epoch_step")
